@@ -266,7 +266,9 @@ PROPS["C37"] = {
     "anchors": [("Transducer", "src/policy/compressor/forwarding.rs"), ("visit_mark_bit", "src/policy/compressor/forwarding.rs"),
                 ("encode", "src/policy/compressor/forwarding.rs"), ("decode", "src/policy/compressor/forwarding.rs")],
     "verus": ["compressor_fwd"],
-    "functions": ["Transducer::{new, visit_mark_bit, encode, decode} (extracted verbatim)", "Address: struct, ZERO, from_usize, as_usize, "
+    "kani": {"prefix": "c37_", "files": ["c37_glue.rs", "vm.rs"], "timeout_quick": 1500, "timeout_thorough": 3600},
+    "functions": ["Transducer::{new, visit_mark_bit, encode, decode} (extracted verbatim)",
+                  "ForwardingMetadata::{new, calculate_offset_vector, forward, has_calculated_forwarding_addresses} (Kani, bounded: 3-block region prefix, <= 3 objects)", "Address: struct, ZERO, from_usize, as_usize, "
                   "impl Add<ByteSize>, impl Sub<Address> (extracted verbatim, specified through vstd AddSpecImpl/SubSpecImpl)",
                   "lemmas: lemma_encode_decode, lemma_resume_from_block, lemma_run_prefix, lemma_live_before_bound/monotone, theorem_c37"],
     "explanation": "visit_mark_bit/encode/decode/new are proved to implement exactly the integer-level transition `step` and the "
@@ -276,14 +278,19 @@ PROPS["C37"] = {
                    "`to` before object n equals region start + total size of the objects before it (lemma_run_prefix); hence forwarding "
                    "addresses are strictly ordered, non-overlapping and never above the original address (theorem_c37). "
                    "lemma_resume_from_block shows that resuming from the state cached at a 512-byte block start (decode(encode(..))) gives "
-                   "the same result, also when the block boundary falls inside an object. Unbounded in the number and size of objects.",
-    "bounds": ["none"],
+                   "the same result, also when the block boundary falls inside an object. Unbounded in the number and size of objects. "
+                   "The metadata glue is covered by a BOUNDED Kani harness on the real ForwardingMetadata::calculate_offset_vector / forward over a region prefix of three "
+                   "512-byte blocks at a symbolic region address with up to three live objects placed symbolically (first/last-word mark bits), including objects spanning a block "
+                   "boundary and covering whole blocks: every object's forwarding address equals region start + total size of the live objects before it, and every offset-vector "
+                   "entry encodes the live bytes before its block (flagged when the block starts inside an object).",
+    "bounds": ["none for the Transducer (Verus)", "glue harness: 3 blocks (1536 bytes), <= 3 objects (Kani, unwind 10)"],
     "assumptions": ["the scanning glue: ForwardingMetadata::calculate_offset_vector/forward feed visit_mark_bit exactly the set mark bits of the "
                     "range in ascending address order (scan_non_zero_values, C22) and the offset vector returns what was stored (C20)",
                     "no-overflow preconditions of visit_mark_bit/encode (to + live bytes <= usize::MAX: addresses inside one region)"],
-    "trusted_base": ["usize is 64 bits (global size_of usize == 8)", "BYTES_IN_WORD == 8 re-declared in the unit prelude",
+    "trusted_base": ["kani::stub of SideMetadataSpec::get_starting_address (each of the two Compressor tables gets its own harness buffer; they are parallel tables 2^41 bytes apart)",
+                     "usize is 64 bits (global size_of usize == 8)", "BYTES_IN_WORD == 8 re-declared in the unit prelude",
                      "vstd AddSpecImpl/SubSpecImpl linking of operator impls", "the extraction rewrite rules listed in the evidence"],
-    "not_covered": ["ForwardingMetadata::{calculate_offset_vector, forward, scan_marked_objects, mark_last_word_of_object} closure glue",
+    "not_covered": ["ForwardingMetadata::{scan_marked_objects, mark_last_word_of_object}", "region prefixes longer than 3 blocks / more than 3 objects for the glue (the transducer itself is unbounded)",
                     "CompressorSpace's use of the forwarding addresses (whole-space)"],
 }
 
@@ -313,22 +320,24 @@ PROPS["C21"] = {
 PROPS["C08"] = {
     "ready": False,
     "level": "other",
-    "technique": "Kani proof harnesses on the real VO-bit lookups; find_object_from_internal_pointer verified modularly against the byte-scanner contract (CBMC); function level, bounded window",
+    "technique": "Kani proof harnesses on the real VO-bit lookups; find_object_from_internal_pointer verified modularly against the contract of find_prev_non_zero_value that C22 discharges (CBMC); function level, bounded window",
     "anchors": [("find_object_from_internal_pointer", "src/util/metadata/vo_bit/mod.rs"), ("is_vo_bit_set_for_addr", "src/util/metadata/vo_bit/mod.rs"),
                 ("is_internal_ptr_from_vo_bit", "src/util/metadata/vo_bit/mod.rs"), ("find_prev_non_zero_value", "src/util/metadata/side_metadata/global.rs")],
     "kani": {"prefix": "c08_", "files": ["c08_interior.rs", "side.rs", "mmapper.rs", "vm.rs"], "timeout_quick": 1800, "timeout_thorough": 3600},
     "functions": ["vo_bit::{is_vo_bit_set_for_addr, is_vo_bit_set_inner, find_object_from_internal_pointer, is_internal_ptr_from_vo_bit, is_internal_ptr, get_object_ref_for_vo_addr}",
-                  "SideMetadataSpec::{find_prev_non_zero_value (fast path against the scanner contract, simple path inlined as the debug cross-check), is_mapped, load_atomic}"],
+                  "SideMetadataSpec::find_prev_non_zero_value [used through its contract: first non-zero region walking down from data_addr within the limit; discharged by C22]",
+                  "SideMetadataSpec::{is_mapped, load_atomic}"],
     "explanation": "FUNCTION LEVEL (the VO-bit kernel behind is_mmtk_object / find_object_from_internal_pointer), on a symbolic VO-bit table of a 4 KiB data window at a symbolic heap "
                    "position: is_vo_bit_set_for_addr(a) is Some(a) iff the bit of a's word is set, for every word-aligned a; find_object_from_internal_pointer(p, n) for every p of "
                    "the window, every n in 8..=64 and a symbolic object size returns Some(o) only if o is a valid object at most n bytes below p, no valid object lies between o and p, and "
-                   "p < start(o) + size(o); returns None only if no valid object in range contains p; neither writes metadata nor panics (mmtk's own fast==simple cross-check is live). "
-                   "The byte-scanning loop is used through its contract (C22). Space dispatch through the SFT, LargeObjectSpace's page-wise lookup, unmapped addresses and larger limits are "
+                   "p < start(o) + size(o); returns None only if no valid object in range contains p; it does not write metadata. "
+                   "find_prev_non_zero_value is used through its contract (a contract stub instantiated at a symbolic witness word), which C22 discharges for the fast path, the "
+                   "region-by-region path and therefore their debug cross-check. Space dispatch through the SFT, LargeObjectSpace's page-wise lookup, unmapped addresses and larger limits are "
                    "not covered; level 'other'.",
-    "bounds": ["VO-bit table window of 64 bytes (4 KiB of heap)", "search limit 8..=64 bytes (the region-by-region cross-check is unwound to 12)", "object size 8..=4096 bytes"],
+    "bounds": ["VO-bit table window of 64 bytes (4 KiB of heap)", "search limit 8..=64 bytes", "object size 8..=4096 bytes"],
     "assumptions": ["all addresses of the window are mapped (harness mmapper)", "ObjectModel::get_current_size returns the object's size (symbolic)",
                     "limits below one word with an unaligned pointer are the recorded C22 known finding and are excluded"],
-    "trusted_base": ["kani::stub of global_side_metadata_base_address and create_mmapper", "contract stub of find_last_non_zero_bit_in_metadata_bytes (backed by C22's bounded harness)"],
+    "trusted_base": ["kani::stub of global_side_metadata_base_address and create_mmapper", "contract stub contract_find_prev of SideMetadataSpec::find_prev_non_zero_value (backed by C22's harnesses)"],
     "not_covered": ["memory_manager::is_mmtk_object / find_object_from_internal_pointer dispatch through the SFT", "LargeObjectSpace::find_object_from_internal_pointer (page-wise)",
                     "addresses outside MMTk memory / unmapped metadata", "search limits above 64 bytes"],
 }
@@ -481,7 +490,6 @@ PROPS["C28"] = {
 }
 
 PROPS["C31"] = {
-    "ready": False,
     "level": "proof",
     "anchors": [("addr_to_index", "src/policy/sft_map.rs"), ("index_to_space_range", "src/policy/sft_map.rs"), ("has_sft_entry", "src/policy/sft_map.rs"),
                 ("space_index", "src/util/heap/layout/map64.rs"), ("get_descriptor_for_address", "src/util/heap/layout/map64.rs")],
@@ -513,13 +521,13 @@ PROPS["C34"] = {
                   "MetadataByteArrayRef::{new, get, len}"],
     "explanation": "Complete (all inputs; loops bounded by the code constant Block::LINES = 128, unwinding assertions on): every byte decodes to a block state that encodes "
                    "back to it and every state the sweeper produces round-trips; line/block index arithmetic for every line address; hole search on a fully symbolic line-mark "
-                   "table of one block with symbolic block address, cursor, current line mark state and last-full-GC state (both in 1..=127): the result is None iff no line "
+                   "table of one block with symbolic block address, cursor (quick tier: in the last 24 lines; thorough tier: anywhere), current line mark state and last-full-GC state (both in 1..=127): the result is None iff no line "
                    "at/after the cursor is available, otherwise the first maximal run of available lines -- in particular no returned line carries the current or the last "
                    "full-GC mark; marking the lines of an object marks every line it spans, changes no other line mark and returns the number of newly marked lines "
                    "(objects up to 1 KiB in the quick tier, up to a whole block in the thorough tier); block state set/get through the side table touches only that block's byte. "
                    "NOT reached: the state-cycling arithmetic inside ImmixSpace::prepare/release (needs a live space), so the >127-GC wrap argument rests on the unchecked assumption "
                    "that prepare keeps line_mark_state in 1..=127 and release copies it to line_unavail_state; level 'other'.",
-    "bounds": ["Block::LINES = 128 (code constant; 32 with immix_smaller_block in the thorough tier)", "object size <= 1024 bytes in the quick tier for mark_lines_for_object"],
+    "bounds": ["Block::LINES = 128 (code constant; 32 with immix_smaller_block in the thorough tier)", "quick tier: hole-search cursor in the last 24 lines of the block, object size <= 1024 bytes for mark_lines_for_object; thorough tier: any cursor, objects up to a block"],
     "assumptions": ["ImmixSpace::prepare keeps line_mark_state within 1..=127 and release copies it into line_unavail_state (not under contract)",
                     "Block::sweep resets stale line marks often enough for the wrap-around (not under contract)"],
     "trusted_base": ["kani::stub of global_side_metadata_base_address", "hook get_next_available_lines_with_states builds an ImmixSpace of which only the two line-state fields are initialised"],
@@ -569,7 +577,6 @@ PROPS["C19"] = {
 }
 
 PROPS["C22"] = {
-    "ready": False,
     "level": "other",
     "technique": "Kani: complete bit-level helper proofs, bounded-window proofs of the byte-scanning loops, and a MODULAR proof of the fast search functions against the scanners' contracts (contract stubs), on the real side-metadata code (CBMC)",
     "anchors": [("find_prev_non_zero_value", "src/util/metadata/side_metadata/global.rs"), ("find_next_non_zero_value", "src/util/metadata/side_metadata/global.rs"),
